@@ -74,6 +74,7 @@ pub fn run_c03(p: &mut Prng, _t: Tier, i: usize, sink: &mut Sink) {
     if i == 0 {
         annex_sign_session(&mut w);
         openssl_signatures(&mut w);
+        rare_digest_sessions(&mut w, false);
     }
     if i == 1 {
         // very large inputs: messages around 2^16 and of 2^20 bytes, identities at the ENTL limit,
@@ -189,6 +190,50 @@ fn openssl_signatures(w: &mut World) {
 }
 
 /// The GM/T 0003.5 Annex A signature example as a scripted session (nonce through the seam).
+static RARE_E: &str = include_str!("../../corpus/rare_e.json");
+
+/// Messages whose digest e = SM3(ZA || M) falls into a 2^-32 window (corpus/rare_e.json, found at
+/// development time by `gmsim find-rare-e`, about 2^32 hashes per entry): "e-plus-x1-wraps"
+/// (e + x1 in [n, 2^256): the corner of r = (e + x1) mod n) and "s-below-2^224" (s + n still fits
+/// 32 bytes, so the tampered (r, s + n) can be delivered: only the range check on s refuses it).
+/// `tamper`: deliver (r, s + n) / (r + n, s) where they fit (C04) instead of signing (C03).
+fn rare_digest_sessions(w: &mut World, tamper: bool) {
+    let v: Value = serde_json::from_str(RARE_E).expect("rare_e.json");
+    let n = n_sm2();
+    let two256 = BigUint::from(1u32) << 256u32;
+    for (j, e) in v.as_array().map(|a| a.as_slice()).unwrap_or(&[]).iter().enumerate() {
+        let g = |f: &str| hex::decode(e[f].as_str().unwrap_or("")).unwrap_or_default();
+        let s = |x: &str| format!("re{j}.{x}");
+        let k = e["k"].as_str().unwrap_or("").to_string();
+        w.exec(set(&s("d"), &g("d")));
+        w.exec(json!({"op":"sm2.derive_pk","impl":"lib","d":s("d"),"pk":s("pk"),"comp":false}));
+        w.exec(set(&s("id"), e["id"].as_str().unwrap_or("").as_bytes()));
+        w.exec(set(&s("msg"), &g("msg")));
+        w.bump(&format!("probe.rare-digest.{}", e["class"].as_str().unwrap_or("?")));
+        if !tamper {
+            w.exec(json!({"op":"sm2.sign","impl":"lib","d":s("d"),"id":s("id"),"msg":s("msg"),"sig":s("sig"),"rng":{"c":[k, k, k, k],"f":1}}));
+            w.exec(json!({"op":"assert.eq","a":s("sig"),"hex":e["sig"].as_str().unwrap_or(""),"property":"C03","oracle":"O3.5-exact","entry":"sm2.sign","class":"rare-digest","what":"signature for a digest in a 2^-32 window of the modular addition differs from GB/T 32918.2"}));
+            w.exec(json!({"op":"sm2.verify","impl":"lib","pk":s("pk"),"id":s("id"),"msg":s("msg"),"sig":s("sig")}));
+        } else {
+            let sig = g("sig");
+            if sig.len() != 64 {
+                continue;
+            }
+            w.exec(set(&s("sig"), &sig));
+            w.exec(json!({"op":"sm2.verify","impl":"lib","pk":s("pk"),"id":s("id"),"msg":s("msg"),"sig":s("sig")}));
+            for (pos, comp) in [(32usize, &sig[32..]), (0, &sig[..32])] {
+                let plus = BigUint::from_bytes_be(comp) + &n;
+                if plus < two256 {
+                    w.bump("fault.component-plus-n-delivered");
+                    w.exec(json!({"op":"copy","from":s("sig"),"to":s("bad")}));
+                    w.exec(json!({"op":"fault","slot":s("bad"),"kind":"splice","pos":pos,"hex":hex::encode(be32(&plus))}));
+                    w.exec(json!({"op":"sm2.verify","impl":"lib","pk":s("pk"),"id":s("id"),"msg":s("msg"),"sig":s("bad")}));
+                }
+            }
+        }
+    }
+}
+
 fn annex_sign_session(w: &mut World) {
     let d = hex::decode("3945208F7B2144B13F36E38AC6D39F95889393692860B51A42FB81EF4DF7C5B8").unwrap();
     let k = "59276e27d506861a16680f3ad9c02dccef3cc1fa3cdbe4ce6d54b80deac1bc21";
@@ -217,6 +262,11 @@ fn fault(slot: &str, kind: &str, extra: Value) -> Value {
 /// of the menu on a fork of the world, each followed by the library's verification.
 pub fn run_c04(p: &mut Prng, t: Tier, _i: usize, sink: &mut Sink) {
     let mut w = World::new();
+    if _i == 0 {
+        let mut r = World::new();
+        rare_digest_sessions(&mut r, true);
+        sink.done(r);
+    }
     let signer = if p.chance(1, 3) { "ref" } else { "lib" };
     let (ops_a, a) = session_ops(p, "a", signer, false);
     let (ops_b, b) = session_ops(p, "b", "lib", false);
